@@ -41,7 +41,7 @@ from harness import daggen
 from harness.universe import export_plan, table_rows, kf_tfs_partial_requirement, kf_framework_roundtrip, kf_tfs_missing
 from harness.orch import GateListener, cq_plan, install, uuid_to_sid, REC, run_observed
 from harness.c07_lib import (Uni7, Renamer, dump, diff_paths, cq_api, cq_cols, cq_opts, cq_link, cq_flt, cq_fobj, cq_oobj,
-                             cq_coll, CFW_IDS, DT_IDS, JT_IDS)
+                             cq_coll, cq_onat, CFW_IDS, DT_IDS, JT_IDS, DOM_IDS)
 from harness import mp_obs
 
 LEVEL = "proof"
@@ -730,13 +730,18 @@ class Pool:
         self.options = [Options(group=dict(o["group"]), context=dict(o["context"])) for o in case["options"]]
         self.features = [Feature(f["name"], options=self.options[f["opt"]],
                                  data_type=DataType[f["dtype"]] if f["dtype"] else None,
-                                 link=self.link_objs[f["link"]] if f["link"] is not None else None) for f in case["features"]]
+                                 link=self.link_objs[f["link"]] if f["link"] is not None else None,
+                                 domain=f.get("dom"), compute_framework=f.get("cfw")) for f in case["features"]]
         self.links_set = None if case["links_set"] is None else {mk_link(LINK_POOL[i]) for i in case["links_set"]}
         self.filter = None
         if case["filters"]:
             self.filter = GlobalFilter()
             for f in case["filters"]:
-                self.filter.add_filter(Feature(f["name"], options=dict(f["opts"])) if f["opts"] else f["name"], f["type"], dict(f["param"]))
+                if f["opts"] or f.get("dom") or f.get("cfw"):       # a filter feature of the caller's own
+                    ff: Any = Feature(f["name"], options=dict(f["opts"]), domain=f.get("dom"), compute_framework=f.get("cfw"))
+                else:
+                    ff = f["name"]                                  # the normal add_filter("col", ...)
+                self.filter.add_filter(ff, f["type"], dict(f["param"]))
         self.api = uni.api_default()
         self.api2 = None
         if self.api is not None:
@@ -763,7 +768,9 @@ def flt_val(sf: Any) -> Dict[str, Any]:
     if ff.options.context:
         raise ValueError("filter feature with context options: outside the model")
     return {"name": str(ff.name), "opts": {k: val_of(v) for k, v in ff.options.group.items()}, "type": sf.filter_type,
-            "param": {k: int(v) for k, v in sf.parameter._raw}}
+            "param": {k: int(v) for k, v in sf.parameter._raw},
+            "dom": None if ff.domain is None else DOM_IDS[ff.domain.name],
+            "cfw": None if ff.compute_frameworks is None else sorted(CFW_IDS[c.__name__] for c in ff.compute_frameworks)}
 
 
 def model_world(uni: Uni7, pool: Pool, ren: Renamer) -> Dict[str, Any]:
@@ -773,7 +780,8 @@ def model_world(uni: Uni7, pool: Pool, ren: Renamer) -> Dict[str, Any]:
         F.append({"name": str(f.name), "opt": next(i for i, o in enumerate(pool.options) if o is f.options),
                   "cfw": None if f.compute_frameworks is None else sorted(CFW_IDS[c.__name__] for c in f.compute_frameworks),
                   "flag": bool(f.initial_requested_data), "dtype": DT_IDS[f.data_type.name] if f.data_type else None,
-                  "uuid": int(ren(f.uuid).split("#")[1]), "link": link_val(uni, f.link) if f.link is not None else None})
+                  "uuid": int(ren(f.uuid).split("#")[1]), "link": link_val(uni, f.link) if f.link is not None else None,
+                  "dom": None if f.domain is None else DOM_IDS[f.domain.name]})
     Oo = [{"group": {k: val_of(v) for k, v in o.group.items()}, "context": {k: val_of(v) for k, v in o.context.items()}}
           for o in pool.options]
     links = [] if pool.links_set is None else sorted((link_val(uni, l) for l in pool.links_set), key=json.dumps)
@@ -793,6 +801,10 @@ def classify_error(e: Exception) -> str:
         return "EAddConflict"
     if "No feature groups found" in m:
         return "ENoGroup"
+    if "Multiple feature groups found" in m:
+        return "EMulti"
+    if "Cannot compare Domain with" in m:
+        return "EDomCmp"
     if "different filters for different features" in m:
         return "ERejected"
     if "different defined joins" in m or "different join types" in m or "multiple right joins" in m:
@@ -1035,9 +1047,12 @@ def cq_universe(case: Dict[str, Any]) -> str:
                 d = g["features"][n]
                 for i in d["inputs"]:
                     li = (d.get("input_link") or {}).get(i)
-                    ins.append(f"({cq_str(i)}, {'None' if li is None else '(Some ' + cq_link(LINK_POOL[li]) + ')'})")
+                    dm = (d.get("input_dom") or {}).get(i)
+                    ins.append(f"{{| i_name := {cq_str(i)}; i_link := {'None' if li is None else '(Some ' + cq_link(LINK_POOL[li]) + ')'}; "
+                               f"i_dom := {cq_onat(None if dm is None else DOM_IDS[dm])} |}}")
             ents.append(f"({cq_str(n)}, {{| gi_id := {cq_nat(gi)}; gi_cfw := [{cq_nat(CFW_IDS[g['cfw']])}]; "
-                        f"gi_api := {cq_bool(g['kind'] == 'api')}; gi_dtype := {dt}; gi_inputs := {cq_list(ins)} |}})")
+                        f"gi_api := {cq_bool(g['kind'] == 'api')}; gi_dtype := {dt}; gi_inputs := {cq_list(ins)}; "
+                        f"gi_dom := {cq_nat(DOM_IDS[g.get('domain') or 'default_domain'])} |}})")
     return cq_list(ents)
 
 
@@ -1067,7 +1082,8 @@ def cq_cobs(case: Dict[str, Any], c: Dict[str, Any]) -> str:
         out = "OOther"
     return (f"{{| co_call := {cq_call(case, c['call'])}; co_F := {cq_list(cq_fobj(f) for f in w['F'])}; "
             f"co_O := {cq_list(cq_oobj(o) for o in w['O'])}; co_links := {cq_list(cq_link(l) for l in w['links'])}; "
-            f"co_coll := {cq_coll(w['coll'])}; co_out := {out}; co_same := {cq_bool(c['same'])} |}}")
+            f"co_coll := {cq_coll(w['coll'])}; co_out := {out}; co_same := {cq_bool(c['same'])}; "
+            f"co_filters := {cq_list(cq_flt(f) for f in w['filters'])} |}}")
 
 
 def cq_args_case(rec: Dict[str, Any]) -> str:
